@@ -96,11 +96,14 @@ class ResizableFile(object):
     def write(self, offset, values):
         size = len(values)
         currSize = self.__mm.size()
-        if offset + size > self.__mm.size():
+        if offset + size > currSize:
+            newSize = currSize
+            while offset + size > newSize:
+                newSize = max(int(newSize * self.__resizeFactor), newSize + 1)
             try:
-                self.__mm.resize(int(self.__mm.size() * self.__resizeFactor))
+                self.__mm.resize(newSize)
             except SystemError:
-                self.__extand(int(self.__mm.size() * self.__resizeFactor) - currSize)
+                self.__extand(newSize - currSize)
         self.__mm[offset:offset + size] = values
 
     def read(self, offset, size):
